@@ -149,6 +149,44 @@ theorem effective_weight_in_range (o : Option Int) :
     simp only [effectiveWeight]
     split <;> simp <;> omega
 
+/-! ### from the route spec to the block (graph `createBackendRef`, dataplane `newBackendGroup`) -/
+
+/-- `newBackendGroup` keeps every backendRef: length, order, weights and validity are preserved; a valid ref
+targets its Service port, an invalid one the 500 upstream -/
+theorem new_backend_group_preserves (refs : List GraphRef) :
+    (newBackendGroup refs).length = refs.length ∧
+    (newBackendGroup refs).map (·.weight) = refs.map (·.weight.toNat) ∧
+    (newBackendGroup refs).map (·.valid) = refs.map (·.valid) ∧
+    (newBackendGroup refs).map value = refs.map (fun g => if g.valid then g.svcPort else invalidBackendRef) :=
+  newBackendGroup_preserves refs
+
+/-- END TO END: a rule whose backendRefs have admissible weights (unset or 0..10⁶, not all zero) gets one
+distribution line per backendRef, in order; the shares are those of the spec weights (unset = 1) and satisfy
+`Holds`; a ref that does not resolve keeps its share and targets the 500 upstream -/
+theorem route_rule_holds (spec : List SpecRef) (hadm : ∀ s ∈ spec, s.admissible) (h2 : 2 ≤ spec.length)
+    (hpos : 0 < (spec.map (·.specWeight)).sum) :
+    ∃ ds, distributions (ruleBackends spec) = some ds ∧
+      ds.length = spec.length ∧
+      ds.map (·.pct) = (shares (spec.map (·.specWeight))).map Pct.dec ∧
+      Holds (spec.map (·.specWeight)) (shares (spec.map (·.specWeight))) ∧
+      ds.map (·.value) = spec.map (fun s => if s.resolves then s.target else invalidBackendRef) := by
+  obtain ⟨r1, r2, _, r4⟩ := ruleBackends_spec spec hadm
+  have hT : total (ruleBackends spec) ≠ 0 := by rw [total_eq_sum, r2]; omega
+  obtain ⟨ds, d1, d2, d3⟩ := invalid_keeps_share_and_answers_500 (ruleBackends spec) (by omega) hT
+  rw [r2] at d2
+  have hv : (ruleBackends spec).map (fun b => if b.valid then b.upstream else invalidBackendRef) =
+      (ruleBackends spec).map value := rfl
+  rw [hv, r4] at d3
+  have hl : ds.length = spec.length := by
+    have := congrArg List.length d3; simpa using this
+  exact ⟨ds, d1, hl, d2, holds _ hpos, d3⟩
+
+example : ∃ spec : List SpecRef, (∀ s ∈ spec, s.admissible) ∧ 2 ≤ spec.length ∧ 0 < (spec.map (·.specWeight)).sum ∧
+    (ruleBackends spec).map (·.weight) = [1, 1, 2] ∧ (ruleBackends spec).map value =
+      [invalidBackendRef, invalidBackendRef, "app_svc-a_80"] :=
+  ⟨[⟨none, false, "app_nosuch_80"⟩, ⟨some 1, false, "app_nosuch_80"⟩, ⟨some 2, true, "app_svc-a_80"⟩],
+   by simp [SpecRef.admissible], by decide, by decide, by decide, by decide⟩
+
 /-! ### non-vacuity -/
 
 example : Admissible [1, 1, 1] := ⟨by decide, by decide, by decide, by decide⟩
@@ -213,6 +251,10 @@ theorem facts_algorithm_pinned :
        "backendName := backendGroupName(backendGroup)",
        "if backendGroupNeedsSplit(backendGroup) { return protocol + \"://$\" + convertStringToSafeVariableName(backendName) + requestURI }",
        "return protocol + \"://\" + backendName + requestURI"] ∧
+    Generated.SplitClients.newBackendGroupLoop =
+      ["for _, ref := range refs { backends = append(backends, Backend{ UpstreamName: ref.ServicePortReference(), Weight: ref.Weight, Valid: ref.Valid, VerifyTLS: convertBackendTLS(ref.BackendTLSPolicy), }) }"] ∧
+    Generated.SplitClients.servicePortReferenceBody =
+      ["if !b.Valid { return \"\" }", "return fmt.Sprintf(\"%s_%s_%d\", b.SvcNsName.Namespace, b.SvcNsName.Name, b.ServicePort.Port)"] ∧
     Generated.SplitClients.invalidUpstreamBody =
       ["return http.Upstream{ Name: invalidBackendRef, Servers: []http.UpstreamServer{ { Address: nginx500Server, }, }, }"] := by
   repeat' constructor
